@@ -127,9 +127,85 @@ def gen_after_close(tier, seed):
     return gen_after_exception(tier, seed + 1, closers=[client_close, client_close_behind_data, lambda g: mg.conn_close(320, "bye"), lambda g: mg.conn_close(200, "")], prefix="a")
 
 
+def gen_api_after_close(tier, seed):
+    """Channels kept open across the connection's close (the error is queued for each handle, the
+    slots are gone): the NEXT call on each - an ordinary call, an explicit Channel::close, a drop, a
+    drop by unwinding - fails with that error (drops stay silent)."""
+    import apigen
+    rng = Rng(seed + 8080)
+    n = 200 if tier == "quick" else 4000
+    cases = []
+    for i in range(n):
+        g = apigen.ApiGen(rng, 4096)
+        ids = rng.sample(range(1, 9), rng.randint(1, 3))
+        for c in ids:
+            g.open(c)
+        if rng.random() < 0.4:
+            g.random_call(ids[0])
+        if rng.random() < 0.5:
+            err = "ClientClosedConnection"
+        else:
+            err = "ServerClosedConnection %d %s" % (rng.choice([320, 200, 541]), apigen.hx(rng.choice(["CONNECTION_FORCED - shutdown", "bye"])))
+        for c in ids:
+            g.op("rep %d err %s" % (c, err))
+            g.op("dropslot %d" % c)
+        for c in ids:
+            r = rng.random()
+            if r < 0.4:
+                g.op("close-chan %d" % c); g.chans.remove(c)
+            elif r < 0.5:
+                g.op("drop-chan %d" % c); g.chans.remove(c)
+            elif r < 0.6:
+                g.op("drop-panic-chan %d" % c); g.chans.remove(c)
+            else:
+                g.dead = True
+                g.random_call(c)
+                g.dead = False
+                if rng.random() < 0.5:
+                    g.op("close-chan %d" % c); g.chans.remove(c)
+        c = Case("z%d" % i, g.ops, {"keep_prefix": 1 + len(ids)})
+        c.meta["err"] = err.split()[0]
+        cases.append(c)
+    return cases
+
+
+def api_after_close_monitor(case, il, sl):
+    import apigen
+    il2, _ = apigen.canon(il, [])
+    groups, cur = [], None
+    for l in [l for l in il2 if not l.startswith("#")]:
+        if l.startswith(("ok", "ret ", "bad-op")) or cur is None:
+            cur = [l]; groups.append(cur)
+        else:
+            cur.append(l)
+    if len(groups) != len(case.ops):
+        return None
+    closed = set()
+    first_after = {}
+    for o, g in zip(case.ops, groups):
+        t = o.split()
+        if t[0] == "rep" and t[2] == "err":
+            closed.add(t[1])
+        elif t[0] in ("cons", "deliv", "get", "conn"):
+            return None          # (calls that reach a channel through another object: judged by the exact diff only)
+        elif t[0] == "call2":
+            # (an exchange call that involves two channels' handles: whichever is used takes the error)
+            first_after.setdefault(t[1], (o, g[0])); first_after.setdefault(t[2], (o, g[0]))
+        elif t[0] in ("close-chan", "call") and t[1] in closed and t[1] not in first_after:
+            first_after[t[1]] = (o, g[0])
+            if not g[0].startswith("ret err " + case.meta["err"]):
+                return ("the connection was closed (%s queued for channel %s); the next call on that channel, `%s`, returned `%s`" % (case.meta["err"], t[1], " ".join(t[:3]), g[0]), "c08-api-next-call")
+        elif t[0] in ("drop-chan", "drop-panic-chan") and t[1] in closed:
+            first_after.setdefault(t[1], (o, g[0]))
+    return None
+
+
 def suites(tier, seed):
     import hbgen
-    return [Suite("server-close-e2e", "faults", lambda: [Case("f%d" % i, ["run %s %d" % c], {"keep_prefix": 0, "fault": c[0]}) for i, c in enumerate([("srvclose", 0), ("srvclose200", 0), ("srvclose541", 1)] + ([] if tier == "quick" else [("srvclose0", 0), ("srvclose65535", 0), ("srvclose404", 0)]))],
+    import apigen
+    return [Suite("next-call-at-api", "api", lambda: gen_api_after_close(tier, seed), monitor=api_after_close_monitor, nontrivial=lambda c, il: True, canon=apigen.canon, shards=4, timeout=60,
+                  rule="public API over the real queue ends: 1-3 channels kept open across a client- or server-initiated connection close (ClientClosedConnection / ServerClosedConnection 320, 200, 541 queued for each handle); the next call on each - ordinary call, explicit Channel::close, drop, drop by unwinding - : calls fail with exactly that error, drops are silent; exact diff against the Lean Api model"),
+            Suite("server-close-e2e", "faults", lambda: [Case("f%d" % i, ["run %s %d" % c], {"keep_prefix": 0, "fault": c[0]}) for i, c in enumerate([("srvclose", 0), ("srvclose200", 0), ("srvclose541", 1)] + ([] if tier == "quick" else [("srvclose0", 0), ("srvclose65535", 0), ("srvclose404", 0)]))],
                   monitor=__import__("props.c05", fromlist=["x"]).e2e_monitor, nontrivial=lambda c, il: True, compare=False, shards=6, timeout=300,
                   rule="real connection, I/O thread and client threads over the mock transport (a consumer waiting, a call in flight, a publisher publishing): the server closes the connection with reply code 320 / 200 / 541 (thorough: 0, 65535, 404): every thread is released and Connection::close returns ServerClosedConnection with exactly that code and text - for EVERY reply code"),
             Suite("after-the-close-point", "machine", lambda: gen_after_close(tier, seed), monitor=monitor, nontrivial=lambda c, il: True, canon=mg.canon_nondet, candidate_ok=mg.candidate_ok, exhaustive=(tier != "quick"),
